@@ -127,7 +127,7 @@ Proof.
   - now rewrite app_nil_r.
   - inversion Hwf as [|? ? H1 Hds]; subst. apply has_len_zlen in H1. cbn [Z.of_nat Pos.of_succ_nat Pos.succ] in *.
     rewrite <- !app_assoc. unfold bits in *.
-    assert (32 = zlen d) by lia. rewrite (sl_here0 d) by (match goal with |- ?G => idtac G end; lia). rewrite sl_from_here by lia.
+    rewrite sl_here0 by lia. rewrite sl_from_here by lia.
     rewrite IH by exact Hds. now rewrite <- app_assoc.
 Qed.
 
@@ -136,12 +136,204 @@ Lemma gaps_zlen gaps : Forall (fun g : bits * bits => has_len (fst g) 16 /\ has_
 Proof.
   induction 1 as [|g gaps [H1 H2] _ IH]; cbn [map concat]; [reflexivity|].
   apply has_len_zlen in H1, H2. cbn [Z.of_nat Pos.of_succ_nat Pos.succ] in *.
-  rewrite !zlen_app, IH, zlen_cons. lia.
+  rewrite !zlen_app, IH, zlen_cons. unfold bits in *. lia.
 Qed.
 
 Lemma dups_zlen (dups : list bits) : Forall (fun d => has_len d 32) dups -> zlen (concat dups) = 32 * zlen dups.
 Proof.
   induction 1 as [|d dups H1 _ IH]; cbn [concat]; [reflexivity|].
   apply has_len_zlen in H1. cbn [Z.of_nat Pos.of_succ_nat Pos.succ] in *.
-  rewrite !zlen_app, IH, zlen_cons. lia.
+  rewrite !zlen_app, IH, zlen_cons. unfold bits in *. lia.
+Qed.
+
+(* ---- chunk values --------------------------------------------------------------------------------- *)
+Ltac sl_from_rw :=
+  match goal with |- context [sl_from ?E ?s] =>
+    let H := fresh in eassert (H : sl_from E s = _) by sl_from_find; rewrite H; clear H end.
+Ltac lens := repeat match goal with H : has_len _ _ |- _ => apply has_len_zlen in H end;
+             cbn [Z.of_nat Pos.of_succ_nat Pos.succ] in *.
+
+Lemma chunk_value_ok b : body_wf b -> 0 < zlen (chunk_value b) ->
+  parse_chunk_value (chunk_type b) (chunk_value b) = Ok (body_fields b).
+Proof.
+  destruct b as [tsn sid ssn ppid data|ack tag arwnd nout nin itsn ps|cum arwnd gaps dups|t ps|cum|t|c|t v];
+    cbn [body_wf chunk_type chunk_value body_fields]; intros Hwf Hpos.
+  - destruct Hwf as (H1 & H2 & H3 & H4 & H5 & H6). lens.
+    unfold parse_chunk_value. eqb_dec. cbv iota. repeat sl_rw. sl_from_rw. reflexivity.
+  - destruct Hwf as (H1 & H2 & H3 & H4 & H5 & H6). lens.
+    destruct ack; unfold parse_chunk_value; eqb_dec; cbv iota; repeat sl_rw; sl_from_rw;
+      now rewrite parse_parameters_ok.
+  - destruct Hwf as (H1 & H2 & H3 & H4 & H5 & H6). lens.
+    pose proof (zlen_nonneg gaps). pose proof (zlen_nonneg dups).
+    pose proof (gaps_zlen gaps H3) as Zg. pose proof (dups_zlen dups H4) as Zd.
+    unfold parse_chunk_value. eqb_dec. cbv iota zeta. repeat sl_rw. sl_from_rw.
+    rewrite !Z_of_bits_small by (cbn; lia).
+    rewrite zlen_app, Zg, Zd. rewrite (proj2 (Z.eqb_eq _ _)) by lia. cbn [negb].
+    rewrite !zlen_to_nat. rewrite sack_gaps_ok by exact H3.
+    rewrite <- (app_nil_r (concat dups)) at 1. rewrite sack_dups_ok by exact H4.
+    rewrite <- !app_assoc. reflexivity.
+  - destruct Hwf as (Ht & Hps).
+    unfold parse_chunk_value. destruct Ht as [Ht|[Ht|[Ht|Ht]]]; subst t; eqb_dec; cbv iota; cbn [orb];
+      now rewrite parse_parameters_ok.
+  - lens. unfold parse_chunk_value. eqb_dec. cbv iota. cbn [orb].
+    destruct (Z.ltb_spec 32 (zlen cum)); [lia|]. rewrite sl_over by lia. reflexivity.
+  - change (zlen (@nil bool)) with 0 in Hpos. lia.
+  - unfold parse_chunk_value. eqb_dec. cbv iota. cbn [orb]. reflexivity.
+  - destruct Hwf as (Ht & Hn & Hv). cbn [In] in Hn.
+    unfold parse_chunk_value. eqb_dec. cbv iota. cbn [orb].
+    destruct (Z.ltb_spec 0 (zlen v)); [reflexivity|lia].
+Qed.
+
+Lemma body_value_mod8 b : body_wf b -> zlen (chunk_value b) mod 8 = 0.
+Proof.
+  destruct b as [tsn sid ssn ppid data|ack tag arwnd nout nin itsn ps|cum arwnd gaps dups|t ps|cum|t|c|t v];
+    cbn [body_wf chunk_value]; intros Hwf.
+  - destruct Hwf as (H1 & H2 & H3 & H4 & H5 & H6). lens. rewrite !zlen_app, H1, H2, H3, H4.
+    replace (32 + (16 + (16 + (32 + zlen data)))) with (zlen data + 12 * 8) by lia. now rewrite Z.mod_add by lia.
+  - destruct Hwf as (H1 & H2 & H3 & H4 & H5 & H6). lens. rewrite !zlen_app, H1, H2, H3, H4, H5.
+    pose proof (params_mod8 ps H6) as Hp. set (z := zlen (concat (map param_encode ps))) in *.
+    replace (32 + (32 + (16 + (16 + (32 + z))))) with (z + 16 * 8) by lia. now rewrite Z.mod_add by lia.
+  - destruct Hwf as (H1 & H2 & H3 & H4 & H5 & H6). lens.
+    rewrite !zlen_app, !zlen_bits_of, H1, H2, (gaps_zlen gaps H3), (dups_zlen dups H4).
+    cbn [Z.of_nat Pos.of_succ_nat Pos.succ].
+    replace (32 + (32 + (16 + (16 + (32 * zlen gaps + 32 * zlen dups))))) with ((12 + 4 * zlen gaps + 4 * zlen dups) * 8) by lia.
+    apply Z.mod_mul. lia.
+  - destruct Hwf as (_ & Hps). now apply params_mod8.
+  - lens. now rewrite Hwf.
+  - reflexivity.
+  - tauto.
+  - tauto.
+Qed.
+
+Lemma params_nil ps : Forall param_wf ps -> zlen (concat (map param_encode ps)) <= 0 -> ps = [].
+Proof.
+  intros H Hz. destruct ps as [|p ps]; [reflexivity|]. inversion H as [|? ? Hp _]; subst.
+  cbn [map concat] in Hz. rewrite zlen_app, param_encode_zlen in Hz by exact Hp.
+  pose proof (zlen_nonneg (pa_value p)). pose proof (zlen_nonneg (pa_pad p)).
+  pose proof (zlen_nonneg (concat (map param_encode ps))). lia.
+Qed.
+
+Lemma body_empty b : body_wf b -> zlen (chunk_value b) <= 0 -> body_fields b = [].
+Proof.
+  destruct b as [tsn sid ssn ppid data|ack tag arwnd nout nin itsn ps|cum arwnd gaps dups|t ps|cum|t|c|t v];
+    cbn [body_wf chunk_value body_fields]; intros Hwf Hz.
+  - destruct Hwf as (H1 & _). lens. rewrite zlen_app in Hz.
+    match type of Hz with _ + zlen ?x <= 0 => pose proof (zlen_nonneg x) end. lia.
+  - destruct Hwf as (H1 & _). lens. rewrite zlen_app in Hz.
+    match type of Hz with _ + zlen ?x <= 0 => pose proof (zlen_nonneg x) end. lia.
+  - destruct Hwf as (H1 & _). lens. rewrite zlen_app in Hz.
+    match type of Hz with _ + zlen ?x <= 0 => pose proof (zlen_nonneg x) end. lia.
+  - destruct Hwf as (_ & Hps). now rewrite (params_nil ps Hps Hz).
+  - lens. lia.
+  - reflexivity.
+  - lia.
+  - destruct (Z.ltb_spec 0 (zlen v)); [lia|reflexivity].
+Qed.
+
+Lemma chunk_type_range b : body_wf b -> 0 <= chunk_type b < 256.
+Proof.
+  destruct b as [tsn sid ssn ppid data|ack tag arwnd nout nin itsn ps|cum arwnd gaps dups|t ps|cum|t|c|t v];
+    cbn [body_wf chunk_type]; intros Hwf; try lia.
+  destruct ack; lia.
+Qed.
+
+(* ---- one chunk ------------------------------------------------------------------------------------ *)
+Lemma chunk_encode_zlen c : chunk_wf c -> zlen (chunk_encode c) = ch_len c * 8 + zlen (ch_pad c).
+Proof.
+  intros (Hf & Hb & _). lens. destruct (bytes_len _ (body_value_mod8 _ Hb)) as [Hl _]. fold (ch_len c) in Hl.
+  unfold chunk_encode. zl.
+Qed.
+
+Lemma parse_chunk_ok c rest : chunk_wf c ->
+  parse_chunk (chunk_encode c ++ rest) = Ok (chunk_fields c, zlen (chunk_encode c)).
+Proof.
+  intros Hwf. rewrite chunk_encode_zlen by exact Hwf. destruct Hwf as (Hf & Hb & Hl & Hp). lens.
+  destruct (bytes_len _ (body_value_mod8 _ Hb)) as [Hcl Hc4]. fold (ch_len c) in Hcl, Hc4.
+  rewrite <- pad_chunk in Hp by lia.
+  pose proof (chunk_type_range _ Hb) as Ht.
+  pose proof (chunk_value_ok _ Hb) as Hval. pose proof (body_empty _ Hb) as Hemp.
+  unfold chunk_encode, chunk_fields in *.
+  set (cl := ch_len c) in *. set (ty := chunk_type (ch_body c)) in *. set (fl := ch_flags c) in *.
+  set (v := chunk_value (ch_body c)) in *. set (pd := ch_pad c) in *.
+  clearbody cl ty v pd fl.
+  pose proof (zlen_nonneg v). pose proof (zlen_nonneg pd). pose proof (zlen_nonneg rest).
+  assert (S0 : forall b, b = bits_of 8 ty ++ fl ++ bits_of 16 cl ++ v ++ pd ++ rest ->
+     zlen b = 32 + zlen v + zlen pd + zlen rest /\
+     sl b 0 8 = bits_of 8 ty /\ sl b 8 16 = fl /\ sl b 16 32 = bits_of 16 cl /\ sl b 32 (32 + (cl * 8 - 32)) = v /\
+     sl b (cl * 8) (cl * 8 + zlen pd) = pd).
+  { intros b ->. repeat split; try sl_solve. zl. }
+  set (b := (bits_of 8 ty ++ fl ++ bits_of 16 cl ++ v ++ pd) ++ rest).
+  destruct (S0 b) as (E & E0 & E1 & E2 & E3 & E4); [unfold b; now rewrite <- !app_assoc|].
+  clearbody b.
+  unfold parse_chunk. cbv zeta. rewrite E2, E0, !Z_of_bits_small by (cbn; lia).
+  rewrite <- Hp, E1, E3, E4.
+  destruct (Z.ltb_spec (zlen b) 32); [lia|].
+  destruct (Z.ltb_spec (cl * 8) 32); [lia|]. destruct (Z.ltb_spec (zlen b) (cl * 8)); [lia|]. cbn [orb].
+  replace (cl * 8 - 32) with (zlen v) by lia.
+  destruct (Z.ltb_spec 0 (zlen v)) as [Hpos|Hz].
+  - rewrite Hval by exact Hpos. cbn [bind]. rewrite andb_diag. rewrite <- ?app_assoc. reflexivity.
+  - rewrite Hemp by exact Hz. cbn [bind]. rewrite andb_diag. reflexivity.
+Qed.
+
+(* ---- the chunk loop and the packet ------------------------------------------------------------------ *)
+Lemma chunks_count cs : Forall chunk_wf cs -> (length cs <= length (concat (map chunk_encode cs)))%nat.
+Proof.
+  induction 1 as [|c cs Hc _ IH]; cbn [map concat length]; [lia|].
+  rewrite app_length. pose proof (chunk_encode_zlen c Hc) as Hz.
+  destruct Hc as (_ & Hb & _). destruct (bytes_len _ (body_value_mod8 _ Hb)) as [_ Hl]. fold (ch_len c) in Hl.
+  pose proof (zlen_nonneg (ch_pad c)). unfold zlen in *. lia.
+Qed.
+
+Lemma chunks_loop_ok cs : forall fuel acc, Forall chunk_wf cs -> (length cs < fuel)%nat ->
+  chunks_loop fuel (concat (map chunk_encode cs)) acc = Ok (acc ++ concat (map chunk_fields cs)).
+Proof.
+  induction cs as [|c cs IH]; intros fuel acc Hwf Hf; (destruct fuel as [|f]; [lia|]); cbn [chunks_loop map concat].
+  - change (zlen (@nil bool)) with 0. cbn. now rewrite app_nil_r.
+  - inversion Hwf as [|? ? Hc Hcs]; subst.
+    pose proof (chunks_count [c] (Forall_cons _ Hc (Forall_nil _))) as Hn. cbn [map concat length] in Hn. rewrite app_nil_r in Hn.
+    pose proof (zlen_nonneg (concat (map chunk_encode cs))).
+    destruct (Z.ltb_spec 0 (zlen (chunk_encode c ++ concat (map chunk_encode cs)))) as [_|Hz];
+      [|rewrite zlen_app in Hz; unfold zlen in *; lia].
+    rewrite parse_chunk_ok by exact Hc. cbn [bind fst snd].
+    rewrite sl_from_here by reflexivity.
+    rewrite IH by (cbn [length] in Hf; auto; lia). now rewrite <- app_assoc.
+Qed.
+
+Theorem c08_sctp p : sctp_wf p -> parse_sctp (sctp_encode p) = Ok (sctp_fields p, zlen (sctp_encode p)).
+Proof.
+  intros (H1 & H2 & H3 & H4 & Hcs). lens.
+  set (cs := concat (map chunk_encode (s_chunks p))).
+  pose proof (zlen_nonneg cs).
+  assert (S0 : forall b, b = s_sport p ++ s_dport p ++ s_tag p ++ s_csum p ++ cs ->
+     zlen b = 96 + zlen cs /\
+     sl b 0 16 = s_sport p /\ sl b 16 32 = s_dport p /\ sl b 32 64 = s_tag p /\ sl b 64 96 = s_csum p /\ sl_from b 96 = cs).
+  { intros b ->. repeat split; try sl_solve; [zl|sl_from_find]. }
+  destruct (S0 (sctp_encode p) eq_refl) as (E & E0 & E1 & E2 & E3 & E4).
+  unfold parse_sctp. destruct (Z.ltb_spec (zlen (sctp_encode p)) 96); [lia|]. cbv zeta.
+  rewrite E0, E1, E2, E3, E4. unfold cs. rewrite chunks_loop_ok.
+  - reflexivity.
+  - exact Hcs.
+  - pose proof (chunks_count _ Hcs) as Hn. fold cs in Hn |- *.
+    assert (length cs <= length (sctp_encode p))%nat by (unfold zlen in *; lia). lia.
+Qed.
+
+(* ---- next-protocol prediction to SCTP --------------------------------------------------------------- *)
+Theorem c08_predict_ipv6_sctp h p : ipv6_wf h -> sctp_wf p -> Z_of_bits (v6_nh h) = 132 ->
+  factory S_IPv6 (ipv6_encode h ++ sctp_encode p) = Ok (ipv6_fields h ++ sctp_fields p, []).
+Proof.
+  intros Hh Hp Hn. unfold factory, packet_parse. cbn [packet_parse_loop].
+  rewrite ipv6_gen by exact Hh. rewrite Hn. change (132 =? 17) with false. change (132 =? 132) with true. cbv iota.
+  unfold chain. rewrite c08_sctp by exact Hp. cbn [bind fst snd app].
+  rewrite sl_from_skip by (try apply ipv6_encode_len; auto; apply zlen_nonneg).
+  rewrite sl_from_eq by apply zlen_nonneg. rewrite zlen_to_nat, skipn_all. reflexivity.
+Qed.
+
+Theorem c08_predict_ipv4_sctp h p : ipv4_wf h -> sctp_wf p -> Z_of_bits (v4_proto h) = 132 ->
+  factory S_IPv4 (ipv4_encode h ++ sctp_encode p) = Ok (ipv4_fields h ++ sctp_fields p, []).
+Proof.
+  intros Hh Hp Hn. unfold factory, packet_parse. cbn [packet_parse_loop].
+  rewrite ipv4_gen by exact Hh. rewrite Hn. change (132 =? 17) with false. change (132 =? 132) with true. cbv iota.
+  unfold chain. rewrite c08_sctp by exact Hp. cbn [bind fst snd app].
+  rewrite sl_from_skip by (try apply ipv4_encode_len; auto; apply zlen_nonneg).
+  rewrite sl_from_eq by apply zlen_nonneg. rewrite zlen_to_nat, skipn_all. reflexivity.
 Qed.
